@@ -1,5 +1,5 @@
 """property id -> rules"""
-from rules import task_constraints, tasks, optional, logic, resources, resource_constraints, completeness, indicators, buffers, driver, solution, exports
+from rules import task_constraints, tasks, optional, logic, resources, resource_constraints, completeness, indicators, buffers, driver, solution, exports, naming, validation
 from sa.selftest import self_test_rule
 
 NOTES = ("Every check decides structural clauses (necessary conditions) of its property from /repo's source as parsed on "
@@ -8,6 +8,41 @@ NOTES = ("Every check decides structural clauses (necessary conditions) of its p
 NOT_APPLICABLE = {}
 
 PROPERTIES = {
+    "C18": {
+        "rules": validation.RULES,
+        "thorough": [self_test_rule("C18")],
+        "level_text": "The declared constraint of each field the property names (30 rows: integer intervals, list lengths, "
+                      "Literal value sets, strict booleans, extra='forbid' on every model class) equals the specification in both "
+                      "directions (not looser, not tighter), read from the class table; each of the 8 registry methods tests "
+                      "membership of the key it stores under and raises before storing; every self-registering class registers "
+                      "exactly once on every accepting path, under its final name; the explicit rejections (no active problem, "
+                      "optional-only rules, force-apply over a mandatory constraint, more workers than listed, unassigned "
+                      "resource, buffer without level, bounds both None, non-Resource / duplicate required resource) exist, test "
+                      "the right predicate and precede the effects they protect; every attribute read on a receiver of known "
+                      "class resolves (no AttributeError for a well-formed input).",
+        "level_note": "pydantic's own enforcement of the declared annotations is trusted; lax-mode coercions ('3' -> 3) are not "
+                      "analysed.",
+        "explanation": "Static analysis of the class table (fields, constraints, configs) and of every constructor / registry "
+                       "method on the extracted IR (raise events with their guards, registry stores, attribute resolution).",
+    },
+    "C14": {
+        "rules": naming.RULES,
+        "thorough": [self_test_rule("C14")],
+        "level_text": "The channels through which names, declaration order or an earlier problem can reach the constraint "
+                      "system are decided: every one of the 31 z3-constant creation sites names its constant with a template that "
+                      "carries the identity of everything the constant is indexed by (owner name or uuid, one hole per enclosing "
+                      "loop), and templates of different sites do not coincide; task numbers and the negative counter only flow "
+                      "into moved-to-the-past equalities; registry positions are only used on single-element branches; no emitted "
+                      "term uses an escaped loop variable; the global active problem has one writer and is read only inside element "
+                      "constructors; no module-level mutable state is written at run time; every z3 global option is re-set by "
+                      "every solver constructor; the solver phase creates no model element; no reporter branches on the content "
+                      "of a name.",
+        "level_note": "Cross-site injectivity assumes element names free of the templates' separator fragments (the adversarial "
+                      "case is one recorded finding). NOT decided: that z3 gives equal verdicts / optima on constraint systems "
+                      "that are equal up to renaming or permutation (solver determinism).",
+        "explanation": "Static analysis over all constructors and the solver: name-template analysis of the z3 constant creation "
+                       "events, dataflow of order-dependent values in emitted terms, AST scans for the global cell and module state.",
+    },
     "C16": {
         "rules": exports.C16_RULES,
         "thorough": [self_test_rule("C16")],
